@@ -30,6 +30,9 @@ pub enum TState {
     Runnable,
     /// Waiting for another logical thread to be gone.
     WaitFor(usize),
+    /// Blocked outside the scheduler's control (on an OS lock held by another logical thread, e.g. the RwLock of the
+    /// lock-based strategy); the baton was taken away from it. It becomes Runnable again at its next scheduling point.
+    Stalled,
     Gone,
 }
 
@@ -86,6 +89,13 @@ pub struct Inner {
     /// Stale-value injections: (global step index -> raw value)
     pub stale: std::collections::HashMap<usize, usize>,
     pub sites: Vec<String>,
+    /// OS thread ids of the logical threads (to tell "blocked in the kernel" from "slow")
+    pub os_tid: Vec<i64>,
+    /// take the baton away from a thread that sleeps in the kernel while holding it (lock-based strategy only)
+    pub steal_stalled: bool,
+    /// (thread, step, consecutive observations of it sleeping)
+    pub stall_obs: (usize, usize, u32),
+    pub stalls: usize,
 }
 
 pub struct Sched {
@@ -115,6 +125,10 @@ pub static SCHED: std::sync::LazyLock<Sched> = std::sync::LazyLock::new(|| Sched
         log_atomics: true,
         stale: std::collections::HashMap::new(),
         sites: Vec::new(),
+        os_tid: Vec::new(),
+        steal_stalled: false,
+        stall_obs: (usize::MAX, 0, 0),
+        stalls: 0,
     }),
     cv: Condvar::new(),
     last_progress: AtomicU64::new(0),
@@ -126,11 +140,32 @@ fn now_ms() -> u64 {
     START.get_or_init(Instant::now).elapsed().as_millis() as u64
 }
 
+/// IN_LOCK[t]: logical thread t is waiting for the scheduler's own mutex (then it sleeps in the kernel because of us)
+static IN_LOCK: [AtomicBool; 64] = [const { AtomicBool::new(false) }; 64];
+
 fn lock() -> std::sync::MutexGuard<'static, Inner> {
-    match SCHED.m.lock() {
+    let me0 = tid();
+    if me0 < 64 {
+        IN_LOCK[me0].store(true, Ordering::SeqCst);
+    }
+    let mut g = match SCHED.m.lock() {
         Ok(g) => g,
         Err(p) => p.into_inner(),
+    };
+    if me0 < 64 {
+        IN_LOCK[me0].store(false, Ordering::SeqCst);
     }
+    // A logical thread from which the baton was taken away while it slept in the kernel is back: before it does
+    // anything visible (log an event, end its operation) it waits for a turn, so that the log stays a total order.
+    let me = tid();
+    if me < g.states.len() && g.states[me] == TState::Stalled && g.active {
+        g.states[me] = TState::Runnable;
+        if g.cur == usize::MAX {
+            g.cur = me;
+        }
+        g = wait_for_baton(g, me);
+    }
+    g
 }
 
 impl Inner {
@@ -144,7 +179,7 @@ impl Inner {
                         r.push(i)
                     }
                 }
-                TState::Gone => {}
+                TState::Gone | TState::Stalled => {}
             }
         }
         r
@@ -196,6 +231,91 @@ impl Inner {
     }
 }
 
+/// Is the OS thread sleeping in the kernel (state S: e.g. blocked on a futex), as opposed to running / runnable?
+fn os_sleeping(os_tid: i64) -> bool {
+    if os_tid <= 0 {
+        return false;
+    }
+    match std::fs::read_to_string(format!("/proc/self/task/{}/stat", os_tid)) {
+        Ok(s) => match s.rfind(')') {
+            Some(i) => s[i + 1..].trim_start().starts_with('S'),
+            None => false,
+        },
+        Err(_) => false,
+    }
+}
+
+/// Wait (as logical thread `me`) until the baton is mine. While waiting, watch the holder: if it sleeps in the kernel
+/// without having reached a scheduling point (it blocks on a lock that a parked thread holds), the baton is taken
+/// away from it and given to somebody runnable. Sound also when the diagnosis is wrong: a thread marked Stalled parks
+/// at its next scheduling point like any other; and the diagnosis needs the thread to be in state S twice in a row.
+fn wait_for_baton(mut g: std::sync::MutexGuard<'static, Inner>, me: usize) -> std::sync::MutexGuard<'static, Inner> {
+    while g.cur != me {
+        if !g.steal_stalled {
+            g = match SCHED.cv.wait(g) {
+                Ok(g) => g,
+                Err(p) => p.into_inner(),
+            };
+            continue;
+        }
+        let (g2, to) = match SCHED.cv.wait_timeout(g, std::time::Duration::from_millis(3)) {
+            Ok(x) => x,
+            Err(p) => p.into_inner(),
+        };
+        g = g2;
+        if !to.timed_out() || g.cur == me || !g.active {
+            continue;
+        }
+        let cur = g.cur;
+        if cur >= g.states.len() || cur >= 64 || g.states[cur] != TState::Runnable {
+            continue;
+        }
+        let idle = now_ms().saturating_sub(SCHED.last_progress.load(Ordering::Relaxed));
+        if idle < 4 {
+            continue;
+        }
+        // look at the holder WITHOUT holding the scheduler's mutex (it may be waiting for exactly that)
+        let (step, os) = (g.step, g.os_tid[cur]);
+        drop(g);
+        let blocked = !IN_LOCK[cur].load(Ordering::SeqCst) && os_sleeping(os) && !IN_LOCK[cur].load(Ordering::SeqCst);
+        g = match SCHED.m.lock() {
+            Ok(g) => g,
+            Err(p) => p.into_inner(),
+        };
+        if g.cur != cur || g.step != step || !g.active || g.states[cur] != TState::Runnable {
+            continue;
+        }
+        if !blocked {
+            g.stall_obs = (usize::MAX, 0, 0);
+            continue;
+        }
+        if g.stall_obs.0 == cur && g.stall_obs.1 == g.step {
+            g.stall_obs.2 += 1;
+        } else {
+            g.stall_obs = (cur, g.step, 1);
+        }
+        if g.stall_obs.2 < 3 || IN_LOCK[cur].load(Ordering::SeqCst) {
+            continue;
+        }
+        // take the baton away
+        g.stall_obs = (usize::MAX, 0, 0);
+        g.states[cur] = TState::Stalled;
+        g.stalls += 1;
+        let (next, _) = g.choose(cur, false);
+        if next == usize::MAX {
+            // nobody else can run either: leave it to the hang detection
+            g.states[cur] = TState::Runnable;
+            continue;
+        }
+        g.schedule.push(json!({"t": next, "f": "stall"}));
+        g.step += 1;
+        g.cur = next;
+        SCHED.last_progress.store(now_ms(), Ordering::Relaxed);
+        SCHED.cv.notify_all();
+    }
+    g
+}
+
 /// A scheduling point of the calling logical thread. Returns when the thread may perform its
 /// next step. `cas_weak`: the step is a compare_exchange_weak; the result says whether it should
 /// fail spuriously.
@@ -212,6 +332,14 @@ pub fn yield_at(cas_weak: bool, site: &str) -> bool {
     let mut g = lock();
     if !g.active {
         return false;
+    }
+    if me < g.states.len() && g.states[me] == TState::Stalled {
+        // back from the kernel: runnable again, wait for a turn like everybody else
+        g.states[me] = TState::Runnable;
+        if g.cur == usize::MAX {
+            g.cur = me;
+        }
+        g = wait_for_baton(g, me);
     }
     debug_assert_eq!(g.cur, me);
     SCHED.last_progress.store(now_ms(), Ordering::Relaxed);
@@ -233,13 +361,9 @@ pub fn yield_at(cas_weak: bool, site: &str) -> bool {
     if next != me {
         g.cur = next;
         SCHED.cv.notify_all();
-        while g.cur != me {
-            g = match SCHED.cv.wait(g) {
-                Ok(g) => g,
-                Err(p) => p.into_inner(),
-            };
-        }
+        g = wait_for_baton(g, me);
     }
+    drop(g);
     spur
 }
 
@@ -247,12 +371,10 @@ pub fn yield_at(cas_weak: bool, site: &str) -> bool {
 pub fn thread_begin(me: usize) {
     TID.with(|t| t.set(me));
     let mut g = lock();
-    while g.cur != me {
-        g = match SCHED.cv.wait(g) {
-            Ok(g) => g,
-            Err(p) => p.into_inner(),
-        };
+    if me < g.os_tid.len() {
+        g.os_tid[me] = unsafe { libc::syscall(libc::SYS_gettid) } as i64;
     }
+    g = wait_for_baton(g, me);
     if g.states[me] == TState::NotStarted {
         g.states[me] = TState::Runnable;
     }
@@ -277,8 +399,11 @@ pub fn thread_gone(id: usize) {
     g.in_op[id] = false;
     g.depth[id] = 0;
     g.events.push(json!({"e": "gone", "t": id}));
-    // The departing thread held the baton.
-    debug_assert_eq!(g.cur, id);
+    // The departing thread held the baton (unless it was taken away from it while it slept in the kernel).
+    if g.cur != id {
+        SCHED.cv.notify_all();
+        return;
+    }
     let (next, _) = g.choose(id, false);
     if next != usize::MAX {
         g.schedule.push(json!(next));
@@ -319,6 +444,9 @@ pub fn begin_execution(n: usize, strategy: Box<dyn Strategy>, log_atomics: bool)
     g.op_steps = vec![0; n];
     g.spurious_in_op = vec![0; n];
     g.sites = vec![String::new(); n];
+    g.os_tid = vec![0; n];
+    g.stall_obs = (usize::MAX, 0, 0);
+    g.stalls = 0;
     g.step = 0;
     g.strategy = Some(strategy);
     g.schedule.clear();
@@ -344,7 +472,8 @@ pub fn kick_off() {
 /// Wait until all logical threads are gone.
 pub fn wait_all_gone() {
     let mut g = lock();
-    while g.cur != usize::MAX {
+    // (nobody holding the baton is not enough: a thread from which it was taken away may still be on its way back)
+    while g.cur != usize::MAX || g.states.iter().any(|s| *s == TState::Stalled) {
         g = match SCHED.cv.wait(g) {
             Ok(g) => g,
             Err(p) => p.into_inner(),
